@@ -217,6 +217,7 @@ def canon(out):
 
     root = ET.fromstring(out)
     tagl = lambda e: R4.split(e.tag)[1]
+    nums = []
     order = []
     for el in root.iter():
         if tagl(el) in ("linearGradient", "radialGradient", "stop", "defs"):
@@ -233,21 +234,35 @@ def canon(out):
         if tagl(el) in ("linearGradient", "radialGradient"):
             if el.get("id") in ren:
                 el.set("id", ren[el.get("id")])
-            for a, v in list(el.attrib.items()):
-                if a in R4.GRAD_NUM or a == "gradientTransform":
-                    el.set(a, _NUMRE.sub(lambda m: repr(round(float(m.group(0)), 5) + 0.0), v))
     for d in root.iter("{%s}defs" % SVGNS):
         kids = sorted(list(d), key=lambda e: (e.get("id") or "", ET.tostring(e)))
         for k in list(d):
             d.remove(k)
         d.extend(kids)
+    # gradient parameters are compared numerically (see same_canon), in the sorted order: the 6-decimal rounding of
+    # the rewritten matrix is amplified by large coordinates when the translation is folded into cx/cy/x1/...
+    for el in root.iter():
+        if tagl(el) in ("linearGradient", "radialGradient"):
+            for a in sorted(el.attrib):
+                v = el.get(a)
+                if a in R4.GRAD_NUM or a == "gradientTransform":
+                    nums.extend(float(m) for m in _NUMRE.findall(v))
+                    el.set(a, _NUMRE.sub("#", v))
 
     def ser(e):
         attrs = " ".join(f'{k}="{v}"' for k, v in sorted(e.attrib.items()))
         txt = (e.text or "").strip()
         return f"<{e.tag} {attrs}>{txt}" + "".join(ser(c) for c in e) + "</>"
 
-    return ser(root)
+    return ser(root), nums
+
+
+def same_canon(a, b):
+    if a is None or b is None:
+        return a is b
+    if a[0] != b[0] or len(a[1]) != len(b[1]):
+        return False
+    return all(abs(x - y) <= 2e-5 * max(1.0, abs(x), abs(y)) for x, y in zip(a[1], b[1]))
 
 
 def convert(doc):
@@ -277,7 +292,7 @@ def judge(name, doc, ops):
         return o, f"clean document: {bo} ({'' if bo == 'returned' else bout[:120]}); with noise {ops}: {o} ({out[:160] if o != 'returned' else ''})", noisy, out
     if o == "returned":
         c = canon(out)
-        if c != bc:
+        if not same_canon(c, bc):
             return o, f"converted document changes with noise {ops}", noisy, out
     return o, None, noisy, out
 
